@@ -372,3 +372,50 @@ func SameExpr(info *types.Info, a, b ast.Expr) bool {
 	}
 	return false
 }
+
+// ResolveLocal follows a local variable that has exactly one definition
+// (`x := e` / `var x = e`) in body back to the defining expression, at most
+// three steps; other expressions are returned as they are.
+func ResolveLocal(info *types.Info, body ast.Node, e ast.Expr) ast.Expr {
+	for step := 0; step < 3; step++ {
+		id, ok := Unparen(e).(*ast.Ident)
+		if !ok {
+			return e
+		}
+		o := info.Uses[id]
+		if o == nil {
+			return e
+		}
+		var defs []ast.Expr
+		ast.Inspect(body, func(n ast.Node) bool {
+			switch x := n.(type) {
+			case *ast.AssignStmt:
+				for i, l := range x.Lhs {
+					if ObjOf(info, l) == o {
+						if len(x.Rhs) == len(x.Lhs) {
+							defs = append(defs, x.Rhs[i])
+						} else {
+							defs = append(defs, nil)
+						}
+					}
+				}
+			case *ast.ValueSpec:
+				for i, n := range x.Names {
+					if info.Defs[n] == o && i < len(x.Values) {
+						defs = append(defs, x.Values[i])
+					}
+				}
+			case *ast.IncDecStmt:
+				if ObjOf(info, x.X) == o {
+					defs = append(defs, nil)
+				}
+			}
+			return true
+		})
+		if len(defs) != 1 || defs[0] == nil {
+			return e
+		}
+		e = defs[0]
+	}
+	return e
+}
